@@ -499,6 +499,14 @@ def check_zoom(chk, entry, order, a, b, mx, my, c, psize, csize):
         if not numpy.iscomplexobj(gz) or not _near(gz.real, ga, ZT) or not _near(gz.imag, gb, ZT):
             chk.fail(key + "complex", "%s(a+ib) != %s(a) + i %s(b) for %dx%d -> %r, order=%d"
                      % (entry, entry, entry, n, n, size, order), rep)
+    # … for every complex dtype a caller may hold (single-precision complex included; tolerance of float32 data)
+    a32, b32 = a.astype("float32"), b.astype("float32")
+    gz = run((a32 + 1j * b32).astype("complex64"), size, "complex64")
+    ga, gb = run(a32.astype(float), size, "complex64/real part"), run(b32.astype(float), size, "complex64/imag part")
+    if gz is not None and ga is not None and gb is not None:
+        if not numpy.iscomplexobj(gz) or not _near(gz.real, ga, 1e-5) or not _near(gz.imag, gb, 1e-5):
+            chk.fail(key + "complex:complex64", "%s(a+ib) != %s(a) + i %s(b) for complex64 data, %dx%d -> %r, order=%d"
+                     % (entry, entry, entry, n, n, size, order), dict(rep, dtype="complex64"))
 
 
 def oracle_zoom(chk, n_cases):
